@@ -41,6 +41,8 @@ def t_own_steps(chk, ix):
 def t_status(chk, ix):
     from .. import rules_generic
     rules_generic.check_iterator_truth(chk, ix)
+    # the auto-retry helper patches scenario.run of every row: each row must keep calling its OWN run
+    rules_generic.check_late_binding(chk, ix, modules=("behave.contrib", "behave.model", "behave.runner"))
     # row scenarios are built once and keep their state (status, skip marks): build_scenarios clears every table's modified mark
     from .. import rules_outline
     rules_outline.check_build_order(chk, ix)
@@ -52,5 +54,5 @@ def t_status(chk, ix):
 
 def run(chk, ix, tier):
     run_parallel(chk, [(t_status, ()), (t_own_steps, ()), (T.t_run_hook, (("H1",),)), (T.t_scenario, (("R4",),))] + T.container_tasks(("R4",)))
-    for r, n in (("B1", 1), ("B4", 1), ("R1", 20), ("R2", 15), ("R3", 4), ("R4", 4), ("R5", 5), ("R6", 5), ("H1", 10)):
+    for r, n in (("B1", 1), ("B4", 1), ("R1", 20), ("R2", 15), ("R3", 4), ("R4", 4), ("R5", 5), ("R6", 5), ("H1", 10), ("RF5", 3)):
         chk.require_instances(r, n)
